@@ -148,10 +148,13 @@ def _pair(ctx, rule: str, wq: str, sq: str, wtotal, stotal, domain_param: str) -
     if wparams != sparams:
         ctx.inconclusive(rule, f"{sq}~{wq}", f"parameter lists differ: {wparams} vs {sparams}", mod.loc(sf))
         return
+    # the table function of struct formats is part of both siblings' dispatch: read through it (either sibling may index a table
+    # of compiled codecs instead)
+    inl = {"_pack_fmt": (mod, mod.func("_pack_fmt"))} if mod.has("_pack_fmt") else {}
     for t in TYPES_PLUS:
         b = {N(domain_param): t}
-        wpaths = Interp(mod, bindings=b).run(wf)
-        spaths = Interp(mod, bindings=b).run(sf)
+        wpaths = Interp(mod, bindings=b, inline=dict(inl)).run(wf)
+        spaths = Interp(mod, bindings=b, inline=dict(inl)).run(sf)
         writer = [Summary(canon_val(p.valuation), outcome_class(p), wtotal(p), 0) for p in wpaths]
         sizer = [Summary(canon_val(p.valuation), outcome_class(p), stotal(p), 0) for p in spaths]
         report(ctx, rule, f"{sq}~{wq}[{t}]", mod.loc(sf), writer, sizer)
